@@ -423,10 +423,31 @@ func cancelGuaranteed(c *chk.Ctx, call *ssa.Call) (string, bool) {
 }
 
 func deferredClose(mk *ssa.MakeChan) bool {
+	isDeferredClose := func(v ssa.Value) bool {
+		if v.Referrers() == nil {
+			return false
+		}
+		for _, r := range *v.Referrers() {
+			if d, ok := r.(*ssa.Defer); ok {
+				if b, ok := d.Call.Value.(*ssa.Builtin); ok && b.Name() == "close" && len(d.Call.Args) == 1 && d.Call.Args[0] == v {
+					return true
+				}
+			}
+		}
+		return false
+	}
+	if isDeferredClose(mk) {
+		return true
+	}
+	// the channel variable may live in a cell because a closure captures it
 	for _, r := range *mk.Referrers() {
-		if d, ok := r.(*ssa.Defer); ok {
-			if b, ok := d.Call.Value.(*ssa.Builtin); ok && b.Name() == "close" && len(d.Call.Args) == 1 && d.Call.Args[0] == ssa.Value(mk) {
-				return true
+		if st, ok := r.(*ssa.Store); ok && st.Val == ssa.Value(mk) {
+			if al, ok := st.Addr.(*ssa.Alloc); ok && len(ir.CellStores(al)) == 1 {
+				for _, ld := range ir.CellLoads(al) {
+					if ld.Parent() == mk.Parent() && isDeferredClose(ld) {
+						return true
+					}
+				}
 			}
 		}
 	}
